@@ -7,6 +7,7 @@ import (
 	"time"
 
 	"verif/engine/core"
+	"verif/engine/explore"
 	"verif/engine/pagedrv"
 	"verif/engine/par"
 	"verif/engine/queuedrv"
@@ -677,4 +678,80 @@ func runQRandTail(ctx *core.Ctx, pool *par.Pool, mode string) {
 	}, nil)
 	ctx.Set("histories", n)
 	ctx.Set("plans_or_images", plans)
+}
+
+// ---- random schedules (diagnostic): deep interleavings beyond the preemption bounds of C02/C09/C13 ----
+
+func init() {
+	register(&Check{ID: "XSRND", Level: "model_checking", Replay: replayExplore, Run: runSchedSampling})
+}
+
+func runSchedSampling(ctx *core.Ctx, pool *par.Pool) {
+	ctx.SetBudget(25 * time.Minute)
+	type scen struct {
+		scenario string
+		p        interface{}
+		name     string
+	}
+	var all []scen
+	ps, names := lockScenarios(false)
+	for i := range ps {
+		all = append(all, scen{"locks", ps[i], names[i]})
+	}
+	ps, names = isoScenarios(false)
+	for i := range ps {
+		all = append(all, scen{"isolation", ps[i], names[i]})
+	}
+	ps, names = pcScenarios(false)
+	for i := range ps {
+		all = append(all, scen{"prodcons", ps[i], names[i]})
+	}
+	pools := []*par.Pool{pool}
+	if rp := racePool(ctx); rp != nil {
+		pools = append(pools, rp)
+	}
+	total := 0
+	for pi, pl := range pools {
+		runs := 400
+		if pi == 1 {
+			runs = 120 // race build is slower
+		}
+		var tasks [][]byte
+		var meta []scen
+		for _, sc := range all {
+			if pi == 1 && sc.scenario == "isolation" {
+				// C02's readers also read internal pages (every id below the data end) to catch leaks of
+				// uncommitted data; under the race detector that reads free pages the writer may write
+				continue
+			}
+			praw, _ := json.Marshal(sc.p)
+			for _, sw := range []float64{0.05, 0.2} {
+				for seed := int64(1); seed <= 4; seed++ {
+					t := explore.Task{Type: "explore", Scenario: sc.scenario, Params: praw, Bounds: explore.Bounds{Preempt: 99}}
+					t.Random.Seed, t.Random.Runs, t.Random.Switch = seed*1000+int64(sw*100), runs, sw
+					raw, _ := json.Marshal(t)
+					tasks = append(tasks, raw)
+					meta = append(meta, sc)
+				}
+			}
+		}
+		pl.Run(tasks, ctx.Deadline, 10*time.Minute, func(i int, out []byte, terr *par.TaskError) {
+			if terr != nil {
+				ctx.EngineError("sampling %s: %s %s", meta[i].name, terr.Msg, terr.Stderr)
+				return
+			}
+			var r explore.Result
+			json.Unmarshal(out, &r)
+			if r.EngineError != "" {
+				ctx.Log("sampling %s: engine: %s", meta[i].name, r.EngineError)
+			}
+			total += r.Execs
+			praw, _ := json.Marshal(meta[i].p)
+			for _, v := range r.Viol {
+				ctx.Violate(v.Class, fmt.Sprintf("scenario %s (%s), random schedule of %d choices: %s", meta[i].name, meta[i].scenario, len(v.Choices), v.Msg),
+					ExploreDoc{Kind: "schedule", Scenario: meta[i].scenario, Params: praw, Choices: v.Choices, Bounds: explore.Bounds{Preempt: 99}})
+			}
+		}, nil)
+	}
+	ctx.Set("random_schedules", total)
 }
